@@ -316,7 +316,7 @@ theorem value_seq_conforms_partial (m : Mode) (op : Op) (L Rr : List Item) (hm :
   | [x], [y] =>
     obtain ⟨h1, h2, h3, h4, h5, h6, h7⟩ := hpair x y rfl rfl
     have hc := valuePair_conforms m op _ _ (hcast (atomize m x)) (hcast (atomize m y)) h1 h2 h3 h4 h5 h6
-    simp only [valueAllowed, hm, valueCmp, hop, hat, hcs, hc, if_false, List.isEmpty_cons, List.length_cons,
+    simp only [valueAllowed, hm, valueCmp, hop, hat, hcs, hc, List.isEmpty_cons, List.length_cons,
       List.length_nil, Bool.or_self, Bool.false_eq_true]
     cases hv : valueOp (binOrdered m) op (castUAStr (atomize m x)) (castUAStr (atomize m y)) with
     | ok v => cases v <;> simp [outOfOR, Out.ofBool, Except.map]
@@ -337,7 +337,7 @@ theorem value_cmp_order_decimal :
   refine ⟨?_, ratLaws⟩
   intro m op a b ha hb
   cases a <;> simp [isIntDec] at ha <;> cases b <;> simp [isIntDec] at hb <;> vpn_simp <;>
-    cases op <;> simp [six, numLt, numEq, D.val, exactQ]
+    cases op <;> simp [six, numLt, numEq, D.val, exactQ] <;> first | rfl | grind
 
 /-- PARTIAL (finding F07).  xs:double: outside the tolerance trigger the six operators are the IEEE
 order of the two values, which on non-NaN values is an equivalence / strict total order (−0 = +0).
